@@ -247,6 +247,9 @@ Queries(r) == LET ns == NonText(AllNodes(r)) IN
               \cup {BeginOf(x.name) \o StrSeq(x.args) : x \in {ns[i] : i \in {j \in 1..Len(ns) : ns[j].k = "env" /\ ns[j].args # <<>>}}}
               \cup {BeginOf(x.name) \o Str(x.args[1]) : x \in {ns[i] : i \in {j \in 1..Len(ns) : ns[j].k = "env" /\ Len(ns[j].args) > 1}}}
               \cup {MathBegin(x.kind) : x \in {ns[i] : i \in {j \in 1..Len(ns) : ns[j].k = "math"}}}
+              \* names that are not spelled in the source: math / displaymath / BraceGroup / BracketGroup, and the closing delimiters
+              \cup {NameOf(x) : x \in {ns[i] : i \in {j \in 1..Len(ns) : ns[j].k \in {"math", "group"}}}}
+              \cup {CloseOf(x) : x \in {ns[i] : i \in {j \in 1..Len(ns) : ns[j].k \in {"math", "group"}}}}
 RECURSIVE SetToSeq(_)
 SetToSeq(S) == IF S = {} THEN <<>> ELSE LET x == CHOOSE y \in S : TRUE IN << x >> \o SetToSeq(S \ {x})
 FindTable(r) == LET rs == SearchRoots(r)
